@@ -708,6 +708,14 @@ def srchash_ParseVector : String := "6ba832cb7d7b2587"
 /-- sha256 of the printed source of split (/repo/20/cvss20.go:79:1) -/
 def srchash_split : String := "878dcaa8ae6b288d"
 
+/-- `init` functions of the package (file:init) -/
+def pkg_inits : List String :=
+  []
+
+/-- build constraints on non-test source files other than the verification hooks (file:constraint) -/
+def pkg_build_tags : List String :=
+  []
+
 /-- package-level variables (name:type) -/
 def pkg_vars : List String :=
   ["ErrInvalidMetricOrder:error", "ErrInvalidMetricValue:error", "ErrTooShortVector:error", "order:[][]string", "splitPool:sync.Pool"]
